@@ -176,7 +176,14 @@ inductive AwKind where
   | saw       -- an awaiter under the boundary (`Suspend`-like: `ScopedFuture` in a reader's owner, aborted
               -- when the reader is disposed): every poll of its `.await` registers the boundary
   | tick      -- `Executor::tick()` of a local resource's fetch: `tx.send(())`
+  | awaiterR  -- `spawn_local(async move { d.ready().await; record(d.get_untracked()) })`: `ready()` never touches
+              -- the value lock
+  | holder    -- `spawn_local(async move { let g = d.by_ref().await; record(*g); release.await; drop(g) })`: a
+              -- reader that keeps the guard on the value across a further await
   deriving Repr, DecidableEq, Inhabited
+
+/-- the futures that poll the value lock (`self.value.read_arc()`): `.await` and `by_ref().await` -/
+def AwKind.usesLock (k : AwKind) : Bool := k == .awaiter || k == .saw || k == .holder
 
 /-- a task waiting for the derived to be ready -/
 structure Aw where
@@ -189,6 +196,13 @@ structure Aw where
   tag : Nat := 0
   /-- a `saw` whose reader was disposed: its next poll ends it without a value -/
   aborted : Bool := false
+  /-- a `holder` that has its guard on the value and waits to be released -/
+  holding : Bool := false
+  /-- a `holder` whose release has been sent -/
+  rel : Bool := false
+  /-- polled with loading off while the value lock was not readable: returned `Pending` with its waker
+  registered nowhere (the listener of `read_arc()` is dropped at the end of the poll) -/
+  lost : Bool := false
   deriving Repr, DecidableEq, Inhabited
 
 structure State where
@@ -264,6 +278,15 @@ structure State where
   msetDuring : Bool := false
   /-- no reader under the boundary is alive (none was created since the last `bdrop`) -/
   noReader : Bool := true
+  /-- read guards on the value lock (`async_lock::RwLock`) currently held: by `holder` tasks and by the harness
+  itself (`syncGuards` of them: `read_untracked()` guards kept alive) -/
+  guards : Nat := 0
+  syncGuards : Nat := 0
+  /-- the derived's task is (or was, until its next poll) suspended in `value.write().await` (`set_inner_value`):
+  the fetch has returned, the loading flag is still on; the lock wakes it when the last read guard goes.  While a
+  writer waits the lock is not readable (`async_lock` prefers writers): from here until the task has been polled
+  again and has stored the value -/
+  lockReg : Bool := false
   deriving Repr, DecidableEq, Inhabited
 
 inductive Event where
@@ -277,6 +300,10 @@ inductive Event where
   | bread     -- a new reader under the boundary reads the value synchronously (`get_untracked()` in its owner)
   | attachS   -- a new reader under the boundary awaits the value (`ScopedFuture` in its owner)
   | bdrop     -- every reader under the boundary is disposed (owner cleanup; awaiting futures dropped)
+  | attachR   -- an awaiter of `ready()`
+  | attachH   -- a reader that keeps its `by_ref()` guard until `release`
+  | hold      -- the harness takes a `read_untracked()` guard and keeps it until `release`
+  | release   -- every guard is given back: the harness drops its own, every holder's release is sent
   deriving Repr, DecidableEq, Inhabited
 
 /-- the fetcher: a pure function of the inputs it captured -/
@@ -367,7 +394,7 @@ def postReads (s : State) : State :=
 def applyResult (s : State) : State :=
   -- `drop(suspense_ids)`
   let s := { s with pending := s.pending - s.idsHeld, idsHeld := 0 }
-  let s := { s with curStatus := .done, pc := .waiting, dataReg := false }
+  let s := { s with curStatus := .done, pc := .waiting, dataReg := false, lockReg := false }
   let s := postReads s
   if s.version = s.fetchVersion then
     notifySubs { s with value := some (fetchFn s.curInputs), manualLive := false }
@@ -409,6 +436,13 @@ def dNeedsRerun (s : State) : State × Bool :=
 def dropInitial (s : State) : State :=
   if s.initialFut then { s with initialFut := false, curStatus := .dropped } else s
 
+/-- `fut.await` has returned, `suspense_ids` are dropped, and `set_inner_value` waits in `value.write().await`
+because a read guard is held: the task is suspended with the loading flag still on.  (The reads the fetcher
+makes after its await have happened by now; they are accounted for when the value is stored — the drivers use
+guards only with fetchers that read nothing after the await.) -/
+def blockOnLock (s : State) : State :=
+  { s with pending := s.pending - s.idsHeld, idsHeld := 0, coveredCur := false, lockReg := true }
+
 /-- one iteration of `while rx.next().await.is_some() { .. }`, entered with `pc = waiting`;
 the flag says whether the loop goes round again within the same poll -/
 def dIter (s : State) : State × Bool :=
@@ -418,7 +452,8 @@ def dIter (s : State) : State × Bool :=
   if r.2 || r.1.firstRun then
     let s := startFetch (if r.2 then dropInitial r.1 else r.1)
     -- `fut.await`: past the tick (if any), then the fetcher's receiver
-    if s.tickFired = true ∧ s.curStatus = .ready then (applyResult s, true)
+    if s.tickFired = true ∧ s.curStatus = .ready then
+      (if s.guards = 0 then (applyResult s, true) else (blockOnLock s, false))
     else ({ s with dataReg := s.tickFired }, false)
   else (r.1, true)
 
@@ -434,7 +469,8 @@ def pollD (s : State) : State :=
     dLoop 3 { s with pc := .waiting }
   | .waiting => dLoop 3 s
   | .fetching =>
-    if s.tickFired = true ∧ s.curStatus = .ready then dLoop 3 (applyResult s)
+    if s.tickFired = true ∧ s.curStatus = .ready then
+      if s.guards = 0 then dLoop 3 (applyResult s) else blockOnLock s
     else { s with dataReg := s.tickFired }
 
 /-! ## memo and effect -/
@@ -502,10 +538,33 @@ def pollE (s : State) : State := eLoop 4 { s with eWoken := false }
 
 /-! ## awaiters -/
 
-def pollAw (loading : Bool) (value : Option Val) (a : Aw) : Aw :=
+def pollAw (loading busy : Bool) (value : Option Val) (a : Aw) : Aw :=
   if a.kind = .tick ∨ (a.kind = .saw ∧ a.aborted = true) then { a with woken := false, done := true, parked := false }
+  else if a.kind = .holder ∧ a.holding = true then
+    -- a holder past its `by_ref().await`: `release.await`, then `drop(g)`
+    if a.rel then { a with woken := false, holding := false, done := true } else { a with woken := false }
   else if loading then { a with woken := false, parked := true }
+  -- `(false, Poll::Pending)`: the lock is not readable (a writer waits) and nobody has this task's waker
+  else if a.kind.usesLock && busy then { a with woken := false, lost := true }
+  else if a.kind = .holder ∧ a.rel = false then { a with woken := false, holding := true, result := value }
   else { a with woken := false, done := true, result := value }
+
+/-- the task of the derived, suspended in `value.write().await`, is woken when the last read guard goes; the lock
+stays unreadable (`lockReg`) until the task has been polled and has stored the value -/
+def wakeWriter (s : State) : State :=
+  if s.guards = 0 ∧ s.lockReg = true then { s with dWoken := true } else s
+
+/-- polling task `i` makes it take a guard on the value (a holder whose `by_ref()` resolves) -/
+def acquires (loading busy : Bool) (a : Option Aw) : Nat :=
+  match a with
+  | some a => if (pollAw loading busy none a).holding ∧ a.holding = false then 1 else 0
+  | none => 0
+
+/-- ... or give it back -/
+def releases (a : Option Aw) : Nat :=
+  match a with
+  | some a => if a.kind = .holder ∧ a.holding = true ∧ a.rel = true then 1 else 0
+  | none => 0
 
 /-- polling a tick task that belongs to the fetch in flight fires its oneshot -/
 def tickFires (nf : Nat) (a : Option Aw) : Bool :=
@@ -527,7 +586,9 @@ def sawPolls (a : Option Aw) : Nat :=
 
 def pollA (s : State) (i : Nat) : State :=
   let fires := tickFires s.nf s.aws[i]?
-  { s with aws := modifyAt (pollAw s.loading s.value) s.aws i,
+  wakeWriter
+  { s with aws := modifyAt (pollAw s.loading s.lockReg s.value) s.aws i,
+           guards := s.guards + acquires s.loading s.lockReg s.aws[i]? - releases s.aws[i]?,
            pending := s.pending - handleDrop s.loading s.aws[i]?,
            susp := s.susp + sawPolls s.aws[i]?,
            tickFired := s.tickFired || fires,
@@ -608,6 +669,19 @@ on a plain derived `d.mark_dirty()` -/
 def refetch (s : State) : State :=
   if s.res then smMarkDirty { s with rc := s.rc + 1 } else dMarkDirty s
 
+/-- `release`: the harness drops its own guards, every holder's release is sent (a holder that has its guard is
+woken; one that is still waiting for the value will give the guard back as soon as it has it) -/
+def releaseAw (a : Aw) : Aw :=
+  if a.kind = .holder ∧ a.done = false then { a with rel := true, woken := a.woken || a.holding } else a
+
+def release (s : State) : State :=
+  wakeWriter { s with aws := s.aws.map releaseAw, guards := s.guards - s.syncGuards, syncGuards := 0 }
+
+/-- Synchronous accesses BLOCK the thread (`blocking_write` / `blocking_read_arc`): a manual write while any read
+guard is held, and a synchronous read (`get`, `bread`, `hold`, a subscriber effect's run) while the derived's task
+waits for the write lock (`lockReg`), can never return on a single thread — the guard's owner cannot run (finding
+F-C10-4).  The drivers never issue such an op; the model has no "thread blocked for good" state, its step for them
+describes a thread that could go on. -/
 def step (s : State) : Event → State
   | .set i v => setSrc s i v
   | .refetch => refetch s
@@ -619,8 +693,24 @@ def step (s : State) : Event → State
   | .bread => bread s
   | .attachS => { s with aws := s.aws ++ [{ kind := .saw }], noReader := false }
   | .bdrop => bdrop s
+  | .attachR => { s with aws := s.aws ++ [{ kind := .awaiterR }] }
+  | .attachH => { s with aws := s.aws ++ [{ kind := .holder }] }
+  | .hold => { s with guards := s.guards + 1, syncGuards := s.syncGuards + 1 }
+  | .release => release s
 
 def run (c : Cfg) (es : List Event) : State := es.foldl step (init c)
+
+/-- class `sync-access-blocks-thread` (known finding F-C10-4): the op is a synchronous access to the value that
+can never return on this thread — a synchronous read (`get`, a read under the boundary, a guard taken by
+`read_untracked()`: all `blocking_read_arc()`) while the derived's task is queued for the write lock (`lockReg`: from
+the moment the finished fetch meets a held guard until the task has been polled again and has stored the value —
+also after the guard has gone), or a manual write (`blocking_write()`) while a read guard is held.  The guard's
+owner and the derived's task would have to run on the blocked thread.  A subscriber effect that reads the value
+blocks its thread the same way when it runs in that window.  The drivers skip such ops. -/
+def blocksThread (s : State) : Event → Bool
+  | .get | .bread | .hold => s.lockReg
+  | .manualSet _ => decide (0 < s.guards)
+  | _ => false
 
 /-- `step` with the proposed repair 3 switched on (`f = true`) or off (`f = false`: `step` itself) -/
 def stepF (f : Bool) (s : State) : Event → State
@@ -638,7 +728,8 @@ def runIdle : Nat → State → State
 /-! ## the property's clauses, evaluated on a state (used by the driver and by the theorems) -/
 
 /-- every started fetch has completed (or was dropped) and no task is woken -/
-def settled (s : State) : Bool := decide (s.curStatus ≠ .pending) && (readyList s).isEmpty
+def settled (s : State) : Bool :=
+  decide (s.curStatus ≠ .pending) && (readyList s).isEmpty && decide (s.guards = 0)
 
 /-- what the fetcher reads when run from scratch on the current source values -/
 def evalNow (s : State) : List Val :=
@@ -651,7 +742,8 @@ def lastSeen (s : State) : Option (Option Val) := s.eLog.getLast?.map (·.1)
 
 /-- every awaiter (not: reader or tick tasks) has been resumed with a value -/
 def awsResumed (s : State) : Bool :=
-  s.aws.all fun a => !(a.kind == .awaiter || a.kind == .saw) || a.aborted || (a.done && a.result.isSome)
+  s.aws.all fun a => !(a.kind == .awaiter || a.kind == .saw || a.kind == .awaiterR || a.kind == .holder) ||
+    a.aborted || (a.done && a.result.isSome)
 
 /-- tasks spawned by synchronous reads under the boundary that still wait for `ready()`: each holds one of the
 boundary's task handles -/
@@ -726,7 +818,8 @@ def dIterV (f2 : Bool) (s : State) : State × Bool :=
   let r := dNeedsRerun { s with chan := false }
   if r.2 || r.1.firstRun then
     let s := startFetch (if r.2 && f2 then dropInitial r.1 else r.1)
-    if s.tickFired = true ∧ s.curStatus = .ready then (applyResult s, true)
+    if s.tickFired = true ∧ s.curStatus = .ready then
+      (if s.guards = 0 then (applyResult s, true) else (blockOnLock s, false))
     else ({ s with dataReg := s.tickFired }, false)
   else (r.1, true)
 
@@ -742,7 +835,8 @@ def pollDV (f2 : Bool) (s : State) : State :=
     dLoopV f2 3 { s with pc := .waiting }
   | .waiting => dLoopV f2 3 s
   | .fetching =>
-    if s.tickFired = true ∧ s.curStatus = .ready then dLoopV f2 3 (applyResult s)
+    if s.tickFired = true ∧ s.curStatus = .ready then
+      if s.guards = 0 then dLoopV f2 3 (applyResult s) else blockOnLock s
     else { s with dataReg := s.tickFired }
 
 def pollNthV (f1 f2 : Bool) (s : State) (j : Nat) : State :=
